@@ -756,9 +756,13 @@ Definition mutation_parent (m : mgr) (bid : nat) (is_base_rung : bool) (lv : Z)
     | Ok None => Ok (Some random_trial)
     | r => r
     end
-  else top_of_previous_rung m bid pos.
+  else
+    match top_of_previous_rung m bid pos with
+    | Ok None => Ok (Some random_trial)      (* slot of a failed job: a random existing trial instead *)
+    | r => r
+    end.
 
-(* self._trial_info[trial_id]: a None key is the KeyError of finding F-C13-3 / F-C05-3 *)
+(* self._trial_info[trial_id]: a None key was the KeyError of finding F-C13-3 / F-C05-3 *)
 Definition read_trial_info (r : result tid) : result Z :=
   match r with
   | Ok (Some t) => Ok t
